@@ -162,16 +162,21 @@ Fixpoint lshift (top : option frame) (e : expr) : bool :=
   end.
 
 Definition paren (ts : list tok) := LP :: ts ++ [RP].
-Variable full : bool.     (* true: parenthesise every operand; false: only where the table requires *)
-Definition wl (x : expr) (t : tok) (fx : list tok) := if negb full && rstop x (Some t) then fx else paren fx.
-Definition wr (x : expr) (f : frame) (fx : list tok) := if negb full && lshift (Some f) x then fx else paren fx.
+(* extra parentheses a renderer may add beyond those the table requires: around a left operand x that is
+   followed by continuing token t, and around an operand x that follows pending frame f *)
+Variable extraL : tok -> expr -> bool.
+Variable extraR : frame -> expr -> bool.
+Variable extraI : expr -> bool.           (* around the middle operand of ?: (never required) *)
+Definition wl (x : expr) (t : tok) (fx : list tok) := if negb (extraL t x) && rstop x (Some t) then fx else paren fx.
+Definition wr (x : expr) (f : frame) (fx : list tok) := if negb (extraR f x) && lshift (Some f) x then fx else paren fx.
+Definition wi (x : expr) (fx : list tok) := if extraI x then paren fx else fx.
 Fixpoint flat (e : expr) : list tok :=
   match e with
   | Atom n => [TAtom n]
   | Bin o l r => wl l (TOp o) (flat l) ++ TOp o :: wr r (FBin l o) (flat r)
   | Un u x => TPre u :: wr x (FPre u) (flat x)
   | Post p x => wl x (TPost p) (flat x) ++ [TPost p]
-  | Ite c a b => wl c TQ (flat c) ++ TQ :: flat a ++ TC :: wr b (FQ2 c a) (flat b)
+  | Ite c a b => wl c TQ (flat c) ++ TQ :: wi a (flat a) ++ TC :: wr b (FQ2 c a) (flat b)
   | Idx a i => wl a LB (flat a) ++ LB :: flat i ++ [RB]
   | Call f args =>
       wl f LP (flat f) ++ LP ::
@@ -249,14 +254,14 @@ Qed.
 Lemma wl_steps x t stk more : P x -> lshift (hd_error stk) x = true ->
   steps (stk, Expect, wl x t (flat x) ++ t :: more) (stk, Have x, t :: more).
 Proof.
-  intros Hx HL. unfold wl. destruct (negb full && rstop x (Some t)) eqn:E.
+  intros Hx HL. unfold wl. destruct (negb (extraL t x) && rstop x (Some t)) eqn:E.
   - apply andb_true_iff in E as [_ E]. apply Hx; auto.
   - apply paren_steps; auto.
 Qed.
 Lemma wr_steps x f stk more : P x -> rstop x (hd_error more) = true ->
   steps (f :: stk, Expect, wr x f (flat x) ++ more) (f :: stk, Have x, more).
 Proof.
-  intros Hx HR. unfold wr. destruct (negb full && lshift (Some f) x) eqn:E.
+  intros Hx HR. unfold wr. destruct (negb (extraR f x) && lshift (Some f) x) eqn:E.
   - apply andb_true_iff in E as [_ E]. apply Hx; auto.
   - apply paren_steps; auto.
 Qed.
@@ -313,7 +318,7 @@ Qed.
 
 Lemma main : forall e, P e.
 Proof.
-  induction e as [n | o l IHl r IHr | u x IHx | p x IHx | c IHc a IHa b IHb | a IHa i IHi | f args IHf IHargs | k a rest IHa IHrest]
+  induction e as [n | o l r IHl IHr | u x IHx | p x IHx | c a b IHc IHa IHb | a i IHa IHi | f args IHf IHargs | k a rest IHa IHrest]
     using expr_ind2; intros stk more HL HR.
   - cbn. apply steps_one. reflexivity.
   - (* Bin *)
@@ -342,7 +347,8 @@ Proof.
     eapply steps_trans. { apply wl_steps; auto. }
     eapply steps_cons. { apply shift_step; [discriminate| exact HLo | reflexivity]. }
     rewrite <- app_assoc. cbn [app].
-    eapply steps_trans. { apply inner_steps; auto. }
+    eapply steps_trans.
+    { unfold wi. destruct (extraI a); [apply paren_steps; auto|apply inner_steps; auto]. }
     eapply steps_cons. { reflexivity. }
     eapply steps_trans. { apply wr_steps; auto. }
     apply steps_one. eapply reduce_step; [reflexivity|]. apply negb_true_iff in HRo. exact HRo.
